@@ -59,13 +59,13 @@ Section Chk.
     list_eqb sev_eqb evs (x_evs x) && end_matches e (x_end x) && String.eqb nx (x_next x)
     && list_eqb (opt_eqb val_eqb) (map s (d_obs c)) (x_final x).
 
-  (* the generated code deletes loop counters with `del`, which never fails for a loop that ran
-     and is modelled like the interpreter's `del` for one that did not *)
+  (* generated code lowers loops to Python `for` statements and never deletes the counter
+     explicitly (locals vanish with the frame): modelled by the non-raising removal *)
   Definition chk1 (c : case1) : bool :=
     match build_phases (d_phases c) with
     | None => false
     | Some ps =>
         match d_interp c with Some x => run_matches keep_interp del_guarded c ps x | None => true end
-        && match d_gen c with Some x => run_matches keep_gen del_guarded c ps x | None => true end
+        && match d_gen c with Some x => run_matches keep_gen true c ps x | None => true end
     end.
 End Chk.
